@@ -32,6 +32,14 @@
    / CLOSE parked in the channel all occur - possibly after a read, possibly
    twice (target replaced); quick samples it stratified by that buffer
    state; every target kind in turn.
+   Two read streams on one session are a table of their own (policy "two"):
+   stdout and stderr packets interleaved one by one, windows 1-3, the
+   application reads only stdout, only stderr, both or neither (one kind of
+   call - read(n), read(-1), readexactly, readline, readuntil, __anext__ of
+   "async for" - repeated until EOF, after any prefix of the packets), so
+   the unread stream alone fills the buffer limit and EOF / exit status /
+   CLOSE arrive in that state.  at_eof() of every stream is polled after
+   every step of every replay and compared with the specification.
 3. End-to-end: a real server handler writes and calls exit(); run()/wait()
    must return complete output whenever a status or signal is reported.
 """
@@ -184,7 +192,7 @@ def jobs_for(tier):
                MaxCalls=1, PrintAt=40, **NL_ONLY)
     J.append(Job('tab_redA', 'Stream',
                  S(DTs='{"out", "err"}', MaxLen=3 if q else 4, MaxErr=1,
-                   MaxRedir=1, **red),
+                   MaxRedir=1, StreamSample=4 if q else 0, **red),
                  ['ChunkIndependent', 'NothingLost', 'AllDataThenEOF'],
                  cases=True, workers=4, heap='6g'))
     J.append(Job('tab_redB', 'Stream',
@@ -676,14 +684,14 @@ def main(ctx):
         total += len(scs)
 
         # ---- TLC generated cases ----
-        plan = [('tab_rfl9', 2800, 2), ('tab_rfl2', 2000, 2),
-                ('tab_dfl', 1600, 3),
-                ('tab_marks', 1600, 1),
+        plan = [('tab_rfl9', 2500, 2), ('tab_rfl2', 1800, 2),
+                ('tab_dfl', 1400, 3),
+                ('tab_marks', 1400, 1),
                 ('tab_redA', 1300, 1), ('tab_redB', 400, 1),
                 ('tab_two_out', 1400, 1), ('tab_two_both', 1200, 1),
                 ('tab_two_none', 300, 1)] + \
             ([] if quick else [('tab_two_err', 1400, 1)]) + [
-                ('sim_two', 1100, 1), ('sim_marks', 1100, 1),
+                ('sim_two', 1000, 1), ('sim_marks', 1000, 1),
                 ('sim_proc', 1200, 1), ('sim_redir', 1200, 1)]
         for world, cap, stride in plan:
             tw = time.time()
